@@ -16,10 +16,10 @@ VOC = ['foo', 'bar', 'snake_case', '_x', 'x_', 'a_b_c', '*', '-', '+', '#', '>',
        '1.', '1)', '-a', '+1', '*a', 'a*', '100%', '$5', 'e.g.', 'i.e.,', 'x=y', 'a|b', '|a', '#1', 'C#', '<3', '&&',
        '||', 'a--b', '1-2', '1.2.3', '(1)', '[x]', '[ ]', '(c)', 'a.)', "it's", '"', 'a"b', '\xe9', '\xfc_\xfc',
        '日本', '\xa1hola!', '“q”', '—', 'a—b', '5>3', 'x^2', 'a_', '_', 'a~b', '1.a',
-       '.a', 'a)', '#.', '=a', '>a', '&notit;', '0.', '12)', '&amp', '***', '___', '=-', '--|x', '|-x', '-1|2', ':-', '-:']
+       '.a', 'a)', '#.', '=a', '>a', '&notit;', '0.', '12)', '&amp', '***', '___', '=-', '--|x', '|-x', '-1|2', ':-', '-:', '10.', '1986.']
 SUB = ['foo', 'snake_case', '_x', 'x_', '*', '-', '+', '#', '>', '=', '|', '~', '[', ']', '(', ')', '&', 'AT&T', 'a&b;',
        '3.14', '1.5)', '2', '.', ')', '--', '==', 'a#', '<', 'a<b', '**', '__', '`', '\\a', 'a\\', '1.', '1)', '*a',
-       'a*', '[x]', '&notit;']
+       'a*', '[x]', '&notit;', '12)', '10.']
 
 BOUNDS = {'quick': dict(full=2, sub=3), 'thorough': dict(full=3, sub=4)}
 
